@@ -17,8 +17,8 @@ CLASSES = [["a", "b"], ["a", "b", "c"], ["pos", "w"], ["x"]]
 MODEL_EXTRA = ["e", "f", "g"]
 COLL_KEYS = ["m", "n", "k", "q", "r", "s"]
 NPRIORS = 14
-SETITEM_TRANSFERS = True # pinned code: Collection.__setitem__ copies the id of the replaced value into the assigned object (Model.v: setitem_transfers)
-DERIVE_THAWS = True      # pinned code: Model.gaussian_prior_model_for_arguments starts with self.unfreeze() (Model.v: derive_thaws)
+SETITEM_TRANSFERS = False  # /repo since 6df133a: no id transfer to an object handed in by the caller (Model.v: setitem_transfers)
+DERIVE_THAWS = False       # /repo since b8214a7: prior passing unfreezes its copy, not self (Model.v: derive_thaws)
 
 
 # ---------------------------------------------------------------------------
@@ -326,8 +326,8 @@ class Mirror:
     def set_target(self, o, name):
         """effective target of setattr (Model redirects tuple member names)"""
         ob = self.objs[o]
-        if ob.kind == "model" and "_" in name:
-            v = ob.get(name.split("_")[0])
+        if ob.kind == "model" and "_" in name and name not in self.classes[ob.cls]:
+            v = ob.get(name.rsplit("_", 1)[0])        # members of tuple argument "name" are name_0, name_1 ...
             if v is not None and v[0] == "r" and self.objs[v[1]].kind == "tuple":
                 return v[1]
         return o
@@ -557,7 +557,7 @@ class Gen:
                     return None
                 return ["set", o, "pos_%d" % r.randint(0, 3), self.leafval()]
             if ob.kind == "model" and ob.cls == 2 and r.random() < 0.5:
-                name = "pos_%d" % r.randint(0, 2)
+                name = r.choice(["pos_%d" % r.randint(0, 2)] * 4 + ["pos_0_1", "w_1"])
                 t = m.set_target(o, name)
                 if not ob.frozen and not self.allowed_mod(t):
                     return None
@@ -578,9 +578,6 @@ class Gen:
                     v = self.leafval()
                     if self.ids and self.next_prior > 1 and r.random() < 0.6:
                         v = ["p", r.randrange(self.next_prior)]      # a prior other models already hold
-                rewrites = (not ob.frozen) and old is not None and old[0] != "c" and v[0] == "p"
-                if rewrites and not self.ids:
-                    v = ["c", r.randint(1, 9)]
                 return ["setitem", o, name, v]
             if r.random() < 0.03 and ob.kind != "tuple":
                 return ["set", o, name, ["r", o]]              # self-reference: exercises the recursion guard
@@ -734,7 +731,7 @@ def gen_cases(ctx):
         for f in sorted(os.listdir(cdir)):
             if f.endswith(".json"):
                 c = json.load(open(os.path.join(cdir, f)))
-                cases.append(dict(c.get("case", c), origin="corpus"))
+                cases.append(dict(c.get("case", c), origin="corpus", name=f))
     for i in range(n):
         x = ctx.rng.random()
         mode = "clean" if x < 0.55 else "stale" if x < 0.78 else "ids" if x < 0.90 else "poison"
@@ -1059,6 +1056,7 @@ def run(ctx):
         for j, r in enumerate(o["results"]):
             results[i + j * common.NCPU] = r
     coq_cases, coq_idx = [], []
+    regress = []
     for i, (c, r) in enumerate(zip(cases, results)):
         key = {"classes": c["classes"], "priors": c["priors"], "ops": c["ops"]}
         ctx.count_case(key, nontrivial(c), c.get("origin"))
@@ -1074,6 +1072,8 @@ def run(ctx):
             ctx.hist("outcome", rec.get("exc", "ok"))
         ctx.hist("objects", min(len(r["frozen"]) // 5 * 5, 40))
         for msg, classes, at in oracle(c, r):
+            if c.get("origin") == "corpus":
+                regress.append("%s: op %d: %s" % (c.get("name", "corpus"), at, msg[:160]))
             ctx.oracle["failures"] += 1
             ctx.hist("oracle-failure-class", ",".join(classes) or "none")
             ctx.failure("oracle", "op %d: %s" % (at, msg), key, classes=classes,
@@ -1082,6 +1082,10 @@ def run(ctx):
         coq_idx.append(i)
         if i % 53 == 0:
             ctx.sample({"ops": c["ops"][:14], "origin": c.get("origin")}, limit=6)
+    if not ctx.replay:
+        ncorpus = sum(1 for c in cases if c.get("origin") == "corpus")
+        ctx.obligation("regression:former-findings", "regression", ncorpus >= 3 and not regress,
+                       "; ".join(regress) if regress else "%d pinned histories of repaired findings answer like the reference" % ncorpus)
     if os.path.exists(os.path.join(common.COQ, "C13", "Model.vo")):
         bad, log = ctx.eval_cases(HEADER, "case", "check_case", coq_cases, shard=40 if ctx.tier == "quick" else 120)
         for b in (bad or [])[:5]:
